@@ -26,15 +26,22 @@ Definition py_index {A : Type} (l : list A) (i : Z) : option A :=
      lines[lineno - prev_off] if lineno >= prev_min else ""     previous line
      range(max(lineno - context, 1), min(lineno + context + after_extra, len(lines) + 1))
      lines[i - 1]                                               context lines *)
-Record emit_params := { ep_context : Z; ep_after_extra : Z; ep_prev_off : Z; ep_prev_min : Z }.
+Record emit_params := { ep_context : Z; ep_after_extra : Z; ep_prev_off : Z; ep_prev_min : Z;
+                        ep_more_prev : list (Z * Z) }.
+(* ep_more_prev: further guarded previous-line lookups `lines[lineno - B] if lineno >= M else ""` (offset B,
+   guard M), e.g. the one in the add-ignores branch since /repo e0903a8.  That branch only runs when a fixer
+   is active; the model evaluates these subscripts unconditionally (an over-approximation of where show_error
+   can raise -- under params_ok none of them raises once this_line succeeded, so emit_crash_iff stays exact). *)
 
 (* what the theorems need of them: the reported line lies in the context window, and the
    previous-line subscript is only evaluated where it is non-negative *)
 Definition params_ok (P : emit_params) : bool :=
   (0 <=? ep_context P) && (1 <=? ep_context P + ep_after_extra P) && (0 <=? ep_after_extra P)
-  && (1 <=? ep_prev_off P) && (ep_prev_off P <=? ep_prev_min P).
+  && (1 <=? ep_prev_off P) && (ep_prev_off P <=? ep_prev_min P)
+  && forallb (fun bm => (1 <=? fst bm) && (fst bm <=? snd bm)) (ep_more_prev P).
 
-Definition default_params : emit_params := {| ep_context := 3; ep_after_extra := 1; ep_prev_off := 2; ep_prev_min := 2 |}.
+Definition default_params : emit_params :=
+  {| ep_context := 3; ep_after_extra := 1; ep_prev_off := 2; ep_prev_min := 2; ep_more_prev := [] |}.
 
 (* one printed context line: its number and whether the caret line follows it *)
 Definition ctx_entry := (Z * bool)%type.
@@ -58,6 +65,14 @@ Fixpoint ctx_loop {A : Type} (lines : list A) (lineno : Z) (has_col : bool) (lo 
       end
   end.
 
+Fixpoint prevs_ok {A : Type} (lines : list A) (ln : Z) (l : list (Z * Z)) : bool :=
+  match l with
+  | [] => true
+  | (b, m) :: t =>
+      (if m <=? ln then (match py_index lines (ln - b) with Some _ => true | None => false end) else true)
+      && prevs_ok lines ln t
+  end.
+
 Definition emit_p {A : Type} (P : emit_params) (lines : list A) (lineno col : option Z) : outcome :=
   match lineno with
   | None => Emitted None col []
@@ -71,6 +86,7 @@ Definition emit_p {A : Type} (P : emit_params) (lines : list A) (lineno col : op
           match (if ep_prev_min P <=? ln then py_index lines (ln - ep_prev_off P) else py_index lines (ln - 1)) with
           | None => Crash
           | Some _ =>
+            if negb (prevs_ok lines ln (ep_more_prev P)) then Crash else
               let n := Z.of_nat (length lines) in
               let min_line := Z.max (ln - ep_context P) 1 in
               let max_line := Z.min (ln + ep_context P + ep_after_extra P) (n + 1) in
